@@ -923,8 +923,8 @@ def exec_calc(case) -> Soft:
 
 
 SUBS = [
-    Sub("lf_history", exec_lf, strategy=lf_cases(), quick=240, thorough=64_000, shards_quick=16),
-    Sub("calculator", exec_calc, strategy=calc_cases(), quick=360, thorough=96_000, shards_quick=16),
+    Sub("lf_history", exec_lf, strategy=lf_cases(), quick=240, thorough=24_000, shards_quick=16),
+    Sub("calculator", exec_calc, strategy=calc_cases(), quick=360, thorough=36_000, shards_quick=16),
 ]
 
 KNOWN_PREDICATES = {}
